@@ -3,7 +3,7 @@ import AioslskVerif.Generated.SchedConstants
 # Upload scheduling model (C05)
 
 Transcribes `TransferManager.manage_transfers`, `_get_queued_transfers`, `_prioritize_uploads`,
-`get_free_upload_slots` (src/aioslsk/transfer/manager.py:384-419, 549-582, 611-696) and the state changes of an
+`get_free_upload_slots` (src/aioslsk/transfer/manager.py:391-426, 556-589, 625-710; line numbers as of /repo 7e50894) and the state changes of an
 upload (transfer/state.py) as seen by the scheduler.  The code modelled is the tree **with**
 `fixes/C06-single-flight.patch` (a transfer whose task slot still holds a running task is skipped by
 `manage_transfers`); for the upload side this only matters in the window the merged `cycle` step
@@ -18,7 +18,7 @@ What the scheduler knows about a user is NOT a table of its own: `_get_queued_tr
 `_prioritize_uploads` ask `UserManager.get_user_object()` (user/manager.py:173-194), and
 `UserManager._users` is a `WeakValueDictionary`: a `User` object (with the status the server
 reported) lives only as long as the tracking manager's `TrackedUser` refers to it.  The model
-therefore carries the weak dictionary (`store`) and `manage_user_tracking` (manager.py:504-522,
+therefore carries the weak dictionary (`store`) and `manage_user_tracking` (manager.py:511-529,
 first half of every management cycle, `Sched.track`): a user is tracked from the first cycle that
 sees an unfinished transfer of theirs until the first cycle that sees only finalized ones; a report
 for a user who is not tracked lands in a throw-away object.  `ref` is the specification the
@@ -26,7 +26,7 @@ bookkeeping is proved against (`C05_seen_is_last_reported`): the status the serv
 a user since the cycle that first saw an unfinished transfer of theirs.
 
 Merged step: `manage_transfers` creates an `initialize-upload` task for every selected upload while it
-is still `QUEUED`; the task's first step (`await transfer.state.initialize()`, manager.py:924, an
+is still `QUEUED`; the task's first step (`await transfer.state.initialize()`, manager.py:942, an
 uncontended lock) runs in the next loop iteration and makes it `INITIALIZING`.  The management job
 sleeps at least `MIN_TRANSFER_MGMT_INTERVAL` between two cycles (tasks.py:66-76), so no second cycle
 can see the selected uploads still `QUEUED`.  `cycle` therefore performs "select + initialise" in
@@ -75,7 +75,7 @@ def Xfer.processing (x : Xfer) : Bool :=
 def Xfer.finalized (x : Xfer) : Bool :=
   x.st == .complete || x.st == .aborted || x.st == .failed
 
-/-- member of `get_uploading()` (manager.py:412-419) -/
+/-- member of `get_uploading()` (manager.py:419-426) -/
 def Xfer.procUpload (x : Xfer) : Bool := x.dir == .upload && x.processing
 
 structure Sched where
@@ -85,24 +85,24 @@ structure Sched where
   store : Nat → Option Known := fun _ => none    -- UserManager._users: entries kept alive by a TrackedUser
   ref : Nat → Option Known := fun _ => none      -- specification (ghost): last report since tracking was due
   slots : Nat := 2                 -- settings.transfers.limits.upload_slots
-  cyclePending : Bool := false     -- the size-1 management queue holds a request (manager.py:117, 542-547)
+  cyclePending : Bool := false     -- the size-1 management queue holds a request (manager.py:117, 549-554)
 
 /-- the object `get_user_object` creates for a user it does not hold (user/manager.py:183-192) -/
 def Sched.fresh (s : Sched) (u : Nat) : Known := { status := .unknown, privileged := s.privSet u }
 
 /-- what the scheduler reads for user `u`: `get_user_object(u)` (the stored object, else a fresh one) and
-`u in settings.users.friends` (manager.py:637, 675-691) -/
+`u in settings.users.friends` (manager.py:651, 689-705) -/
 def Sched.users (s : Sched) (u : Nat) : UserInfo :=
   let k := (s.store u).getD (s.fresh u)
   { status := k.status, friend := s.friends u, privileged := k.privileged }
 
-/-- `u` has a transfer that is not finalized: member of `unfinished_users` (manager.py:510-513) -/
+/-- `u` has a transfer that is not finalized: member of `unfinished_users` (manager.py:517-520) -/
 def Sched.unfinishedUser (s : Sched) (u : Nat) : Bool := s.xs.any (fun x => x.user == u && !x.finalized)
 
-/-- member of `finished_users` (manager.py:514-517) -/
+/-- member of `finished_users` (manager.py:521-524) -/
 def Sched.finishedUser (s : Sched) (u : Nat) : Bool := s.xs.any (fun x => x.user == u && x.finalized)
 
-/-- `manage_user_tracking` (manager.py:504-522) together with what `UserManager.track_user` /
+/-- `manage_user_tracking` (manager.py:511-529) together with what `UserManager.track_user` /
 `untrack_user` (user/manager.py:208-230, 536-553, 563-588) do to the weak dictionary: every user with an
 unfinished transfer is tracked (the existing object is kept, else a fresh one is created and held by the
 new `TrackedUser`); a user with finalized transfers only is untracked (the `TrackedUser` goes, and the
@@ -122,22 +122,22 @@ def Sched.track (s : Sched) : Sched :=
 /-- `len(get_uploading())` -/
 def Sched.procUploads (s : Sched) : Nat := s.xs.countP Xfer.procUpload
 
-/-- `get_free_upload_slots` : `max(0, upload_slots - len(uploading))` (manager.py:391-394) -/
+/-- `get_free_upload_slots` : `max(0, upload_slots - len(uploading))` (manager.py:398-401) -/
 def Sched.freeSlots (s : Sched) : Nat := s.slots - s.procUploads
 
-/-- `uploading_users` (manager.py:617-620) -/
+/-- `uploading_users` (manager.py:631-634) -/
 def Sched.busyUsers (s : Sched) : List Nat := (s.xs.filter Xfer.procUpload).map (·.user)
 
-/-- The loop of `_get_queued_transfers` (manager.py:625-652), upload branch.  `seen` is
+/-- The loop of `_get_queued_transfers` (manager.py:639-666), upload branch.  `seen` is
 `users_with_queued_upload`. -/
 def eligLoop (users : Nat → UserInfo) (busy : List Nat) : List Nat → List Xfer → List Xfer
   | _, [] => []
   | seen, x :: r =>
-    if (users x.user).status = .offline then eligLoop users busy seen r          -- 637-639
+    if (users x.user).status = .offline then eligLoop users busy seen r          -- 651-653
     else if x.dir = .upload then
-      if x.user ∈ busy then eligLoop users busy seen r                           -- 645-646
-      else if x.user ∈ seen then eligLoop users busy seen r                      -- 647-648
-      else if x.st = .queued then x :: eligLoop users busy (x.user :: seen) r    -- 650-652
+      if x.user ∈ busy then eligLoop users busy seen r                           -- 659-660
+      else if x.user ∈ seen then eligLoop users busy seen r                      -- 661-662
+      else if x.st = .queued then x :: eligLoop users busy (x.user :: seen) r    -- 664-666
       else eligLoop users busy seen r
     else eligLoop users busy seen r                                              -- downloads: other list
 
@@ -154,10 +154,10 @@ def W : Weights :=
   { online := Generated.Sched.wOnline, friend := Generated.Sched.wFriend,
     privileged := Generated.Sched.wPrivileged }
 
-/-- which statuses earn the "online" weight (manager.py:683), regenerated -/
+/-- which statuses earn the "online" weight (manager.py:697), regenerated -/
 def earnsOnline (st : UStatus) : Bool := Generated.Sched.onlineEarners.contains st.name
 
-/-- rank of one upload (manager.py:681-693) -/
+/-- rank of one upload (manager.py:695-707) -/
 def rankW (w : Weights) (i : UserInfo) : Nat :=
   (if earnsOnline i.status then w.online else 0) + (if i.friend then w.friend else 0)
     + (if i.privileged then w.privileged else 0)
@@ -172,19 +172,19 @@ def insAsc (key : Xfer → Nat) (a : Xfer) : List Xfer → List Xfer
   | b :: l => if key a ≤ key b then a :: b :: l else b :: insAsc key a l
 
 /-- stable ascending sort.  `list.sort(key=…)` is stable and a stable sort is determined by its
-input, so this is what `ranking.sort(key=itemgetter(0))` (manager.py:695) returns. -/
+input, so this is what `ranking.sort(key=itemgetter(0))` (manager.py:709) returns. -/
 def sortAsc (key : Xfer → Nat) : List Xfer → List Xfer
   | [] => []
   | a :: l => insAsc key a (sortAsc key l)
 
-/-- `_prioritize_uploads` (manager.py:670-696): stable ascending sort on the rank, then reversed. -/
+/-- `_prioritize_uploads` (manager.py:684-710): stable ascending sort on the rank, then reversed. -/
 def Sched.prioritize (s : Sched) (l : List Xfer) : List Xfer :=
   (sortAsc s.rankOf l).reverse
 
 /-- second component of `_get_queued_transfers()` -/
 def Sched.eligible (s : Sched) : List Xfer := s.prioritize s.candidates
 
-/-- `uploads[:free_upload_slots]` (manager.py:572) -/
+/-- `uploads[:free_upload_slots]` (manager.py:579) -/
 def Sched.select (s : Sched) : List Xfer := s.eligible.take s.freeSlots
 
 /-- `manage_transfers` (upload part): the selected uploads are initialised (merged step, see header); their
@@ -195,7 +195,7 @@ def Sched.start (s : Sched) : Sched :=
     xs := s.xs.map (fun x => if x ∈ sel then { x with st := .initializing } else x)
     cyclePending := !sel.isEmpty }
 
-/-- one management cycle (`_management_job`, manager.py:524-540): `manage_user_tracking`, then
+/-- one management cycle (`_management_job`, manager.py:531-547): `manage_user_tracking`, then
 `manage_transfers`. -/
 def Sched.cycle (s : Sched) : Sched := s.track.start
 
@@ -211,14 +211,14 @@ inductive Op
   | started (k : Nat)          -- initialisation got through: INITIALIZING → UPLOADING (state.py:228-235)
   | finish (k : Nat)           -- UPLOADING → COMPLETE (state.py:279-282)
   | failX (k : Nat)            -- INITIALIZING / UPLOADING → FAILED (reply disallowed, write error)
-  | backToQueue (k : Nat)      -- INITIALIZING → QUEUED (send failed, timeout, no file connection; manager.py:939-988)
-  | requeue (k : Nat)          -- peer sends PeerTransferQueue for a FAILED / COMPLETE upload (manager.py:1265-1266)
+  | backToQueue (k : Nat)      -- INITIALIZING → QUEUED (send failed, timeout, no file connection; manager.py:957-1006)
+  | requeue (k : Nat)          -- peer sends PeerTransferQueue for a FAILED / COMPLETE upload (manager.py:1283-1284)
   | apiQueue (k : Nat)         -- `TransferManager.queue` from a documented state (manager.py:277-307)
   | abort (k : Nat)            -- `TransferManager.abort`
   | setSlots (n : Nat)         -- settings.transfers.limits.upload_slots = n
   | friend (u : Nat) (b : Bool) -- settings.users.friends gains / loses `u` (a plain attribute: no cycle is requested)
-  | report (u : Nat) (st : UStatus) (priv : Bool)   -- server: GetUserStatus.Response (user/manager.py:383-398, manager.py:1197-1202)
-  | reply (u : Nat) (st : Option UStatus)           -- server: AddUser.Response, `none` = user does not exist (user/manager.py:374-381, manager.py:1193-1195)
+  | report (u : Nat) (st : UStatus) (priv : Bool)   -- server: GetUserStatus.Response (user/manager.py:383-398, manager.py:1215-1221)
+  | reply (u : Nat) (st : Option UStatus)           -- server: AddUser.Response, `none` = user does not exist (user/manager.py:374-381, manager.py:1211-1213)
   | privList (l : List Nat)    -- server: PrivilegedUsers.Response (user/manager.py:352-365)
 deriving Repr
 
